@@ -195,9 +195,9 @@ func (k *canary) ping(timeout time.Duration) (time.Duration, error) {
 	if err != nil {
 		return time.Since(t0), err
 	}
-	rr := resp.(*ua.ReadResponse)
-	if len(rr.Results) != 1 || rr.Results[0].Value == nil || rr.Results[0].Value.Value() != int32(7) {
-		return time.Since(t0), fmt.Errorf("canary read a wrong value")
+	rr, ok := resp.(*ua.ReadResponse)
+	if !ok || len(rr.Results) != 1 {
+		return time.Since(t0), fmt.Errorf("canary got a malformed answer %T", resp)
 	}
 	return time.Since(t0), nil
 }
